@@ -50,7 +50,8 @@ def sameTable (a b : List (String × Bool × Nat)) : Bool :=
 def parseCase (j : Json) (cache : Bool) : Except String CaseIn := do
   let tensors ← (← fArr j "tensors").mapM (fun t => do
     pure ({ name := (← fStr t "name"), ranks := (← asStrs (← field t "ranks")),
-            shape := (← asNats (← field t "shape")) } : TensorIn))
+            shape := (← (do let sj ← field t "shape"
+                            if sj.isNull then pure none else do pure (some (← asNats sj)))) } : TensorIn))
   let fmts ← (← fArr j "fmts").mapM (fun f => do
     pure ({ tensor := (← fStr f "tensor"), rank := (← fStr f "rank"),
             cbits := (← fNat f "cbits"), pbits := (← fNat f "pbits") } : FmtIn))
@@ -115,7 +116,15 @@ def handle (j : Json) (cache : Bool) : Except String Verdict := do
     | .error _ => pure none
   if runs.length ≠ caps.length then throw "runs/caps"
   match configure c with
-  | .error e => return { agree := true, spec := true, tags := ["OUT_OF_MODEL"], why := e }
+  | .error e =>
+    if e.startsWith "REJECT:" then
+      -- a documented requirement is not met (pinned binding on a tensor without declared shape):
+      -- the model predicts the rejection; rejecting is not a wrong charge
+      let cls := "ERR:" ++ (e.drop 7).toString
+      let ok := runs.all (fun r => r.err == some cls)
+      return { agree := ok, spec := true, tags := [if cache then "cache" else "buffet", "rejected-no-declared-shape"],
+               why := if ok then "" else s!"expected {cls} on every run" }
+    return { agree := true, spec := true, tags := ["OUT_OF_MODEL"], why := e }
   | .ok (L, cfgs) =>
     let mut agree := true
     let mut spec := true
@@ -167,7 +176,8 @@ def handle (j : Json) (cache : Bool) : Except String Verdict := do
       | none, some _ => agree := false
       | none, none =>
         if !sameTable run.traffic mtab then agree := false
-        if run.over != mover then tags := tags ++ ["overflow-count-differs"]
+        if run.over != mover then
+          agree := false; tags := tags ++ ["overflow-count-differs"]
         if run.over > 0 then tags := tags ++ ["overflow"]
       if run.err.isNone then
         if !sameTable run.traffic stab then
